@@ -4,8 +4,9 @@ import common, diffrun, gen, kat, stdflow
 from common import hx
 
 KATS = [("hash", 32, "ASCON-HASH.txt"), ("hasha", 32, "ASCON-HASHA.txt"), ("xof", 0, "ASCON-XOF.txt"), ("xofa", 0, "ASCON-XOFA.txt"),
-        ("xof", 0, "ASCON-XOF-long-output.txt"), ("xofa", 0, "ASCON-XOFA-long-output.txt"),
-        ("xof", 64, "ASCON-XOF-fixed-length.txt"), ("xofa", 64, "ASCON-XOFA-fixed-length.txt")]
+        ("xof", 0, "ASCON-XOF-long-output.txt"), ("xofa", 0, "ASCON-XOFA-long-output.txt")]
+# (the repository has no known-answer file for declared lengths other than 0 and 32 nor for customised XOFs: for those the specification
+#  Spec/Hash.v is my reading of doc/cxof.dox and of the header text, validated only through the library itself)
 
 
 def spec_kat(res, driver, tier):
@@ -25,9 +26,6 @@ def spec_kat(res, driver, tier):
             exp.append(md)
         rc, out, err = common.run_parallel(driver, lines)
         bad = [(l, o, e) for l, o, e in zip(lines, out, exp) if o != e]
-        if bad and L == 64:
-            # the fixed-length KAT files may use another declared length; find it from the file name is not possible: skip silently
-            continue
         for l, o, e in bad[:3]:
             res.violation("spec-kat-" + f, "Spec.Hash disagrees with KAT file %s on %s: got %s expected %s" % (f, l[:100], o[:64], e[:64]),
                           {"line": l, "spec": o, "kat": e})
